@@ -341,3 +341,64 @@ Proof.
 Qed.
 End Canon.
 End Cuts.
+
+(** more about [merge]: mapping over inputs and outputs, extensionality *)
+Section MergeMore.
+Context {V : Type} `{TotalOrder V}.
+Notation cutV := (cut V).
+
+Lemma merge_map_l {A A' B C} (f : A' -> B -> C) (phi : A -> A') : forall la ca lb cb,
+  merge f (phi ca) (map_snd phi la) cb lb = merge (fun a b => f (phi a) b) ca la cb lb.
+Proof.
+  unfold map_snd. induction la as [|[c1 a] la IHa]; intros ca lb.
+  - induction lb as [|[c2 b] lb IHb]; intros cb; cbn; [reflexivity|]. first [reflexivity | f_equal; apply IHb].
+  - induction lb as [|[c2 b] lb IHb]; intros cb.
+    + cbn. f_equal. apply IHa.
+    + cbn [map merge fst snd]. destruct (cut_cmp c1 c2).
+      * f_equal. apply IHa. * f_equal. apply IHa.
+      * f_equal. apply IHb.
+Qed.
+
+Lemma merge_map_out {A B C D} (f : A -> B -> C) (h : C -> D) : forall la ca lb cb,
+  map_snd h (merge f ca la cb lb) = merge (fun a b => h (f a b)) ca la cb lb.
+Proof.
+  unfold map_snd. induction la as [|[c1 a] la IHa]; intros ca lb.
+  - induction lb as [|[c2 b] lb IHb]; intros cb; cbn; [reflexivity|]. first [reflexivity | f_equal; apply IHb].
+  - induction lb as [|[c2 b] lb IHb]; intros cb.
+    + cbn. f_equal. apply IHa.
+    + cbn [merge]. destruct (cut_cmp c1 c2); cbn [map fst snd]; f_equal; try apply IHa. apply IHb.
+Qed.
+
+Lemma merge_ext_in {A B C} (f g : A -> B -> C) : forall la ca lb cb,
+  (forall a b, (a = ca \/ In a (map snd la)) -> (b = cb \/ In b (map snd lb)) -> f a b = g a b) ->
+  merge f ca la cb lb = merge g ca la cb lb.
+Proof.
+  induction la as [|[c1 a] la IHa]; intros ca lb.
+  - induction lb as [|[c2 b] lb IHb]; intros cb HP; cbn; [reflexivity|]. f_equal.
+    + f_equal. apply HP; cbn; auto.
+    + apply IHb. intros a0 b0 Ha Hb. apply HP; cbn; auto. destruct Hb; auto.
+  - induction lb as [|[c2 b] lb IHb]; intros cb HP.
+    + cbn. f_equal; [f_equal; apply HP; cbn; auto|]. apply IHa. intros a0 b0 Ha Hb. apply HP; cbn; auto. destruct Ha; auto.
+    + cbn [merge]. destruct (cut_cmp c1 c2).
+      * f_equal; [f_equal; apply HP; cbn; auto|]. apply IHa. intros a0 b0 Ha Hb. apply HP; cbn.
+        -- destruct Ha; auto. -- destruct Hb; auto.
+      * f_equal; [f_equal; apply HP; cbn; auto|]. apply IHa. intros a0 b0 Ha Hb. apply HP; cbn; auto. destruct Ha; auto.
+      * f_equal; [f_equal; apply HP; cbn; auto|].
+        change (merge f ca ((c1, a) :: la) b lb = merge g ca ((c1, a) :: la) b lb).
+        apply IHb. intros a0 b0 Ha Hb. apply HP; auto. cbn. destruct Hb; auto.
+Qed.
+
+(** swapping the two sides *)
+Lemma merge_flip {A B C} (f : A -> B -> C) : forall la ca lb cb,
+  merge f ca la cb lb = merge (fun b a => f a b) cb lb ca la.
+Proof.
+  induction la as [|[c1 a] la IHa]; intros ca lb.
+  - induction lb as [|[c2 b] lb IHb]; intros cb; cbn; [reflexivity|]. f_equal. apply IHb.
+  - induction lb as [|[c2 b] lb IHb]; intros cb.
+    + cbn. f_equal. apply (IHa a [] cb).
+    + cbn [merge]. unfold cut_cmp. rewrite (cmp_antisym c1 c2). destruct (cmp c1 c2) eqn:E; cbn [CompOpp].
+      * apply cmp_eq in E; subst c2. f_equal. apply IHa.
+      * f_equal. apply (IHa a ((c2, b) :: lb) cb).
+      * f_equal. apply IHb.
+Qed.
+End MergeMore.
